@@ -24,14 +24,17 @@ class Cmp:
         self.log = []
         self.forced = forced or {}
 
-    def _c(self, a, b, op, scale):
+    def _c(self, a, b, op, scale, zero_decisive=True):
         m = a - b
         if scale is None:
             scale = max(abs(a), abs(b), 1e-300)
         if m != m:  # nan: every comparison is False, decisively
             res, near = False, False
         else:
-            near = (m != 0) and abs(m) <= self.tau * scale
+            # zero_decisive=False: the implementation reaches these operands by a route whose rounding
+            # differs from the model's (e.g. an incremental mean), so an exact tie in the model is only
+            # a near-tie for the implementation
+            near = (m != 0 or not zero_decisive) and abs(m) <= self.tau * scale
             res = (m > 0) if op == ">" else (m >= 0) if op == ">=" else (m < 0) if op == "<" else (m <= 0)
         i = len(self.log)
         if i in self.forced:
@@ -39,17 +42,17 @@ class Cmp:
         self.log.append((near, res, m))
         return res
 
-    def gt(self, a, b, scale=None):
-        return self._c(a, b, ">", scale)
+    def gt(self, a, b, scale=None, zero_decisive=True):
+        return self._c(a, b, ">", scale, zero_decisive)
 
-    def ge(self, a, b, scale=None):
-        return self._c(a, b, ">=", scale)
+    def ge(self, a, b, scale=None, zero_decisive=True):
+        return self._c(a, b, ">=", scale, zero_decisive)
 
-    def lt(self, a, b, scale=None):
-        return self._c(a, b, "<", scale)
+    def lt(self, a, b, scale=None, zero_decisive=True):
+        return self._c(a, b, "<", scale, zero_decisive)
 
-    def le(self, a, b, scale=None):
-        return self._c(a, b, "<=", scale)
+    def le(self, a, b, scale=None, zero_decisive=True):
+        return self._c(a, b, "<=", scale, zero_decisive)
 
     def near_indices(self):
         return [i for i, e in enumerate(self.log) if e[0]]
